@@ -119,7 +119,7 @@ def run(tier: str) -> int:
                      "implementation and compared frame by frame with the reference.")
     totals: Dict[str, int] = {}
     per_cfg = {}
-    for b in configs(tier, ("C01", "C05")):
+    for b in configs(tier, ("C01", "C03")):
         t = hub.bfs(b, chk)
         per_cfg[hub.get_cfg(b).name] = t
         for k, v in t.items():
